@@ -127,7 +127,7 @@ class Prov:
         if k == "agg":
             if rv["agg"] == "adt":
                 return ("agg", rv["adt"], rv["vname"], tuple(self.op(f, depth) for f in rv["fields"]), tuple(rv["fnames"]))
-            return ("agg", rv["agg"], None, tuple(self.op(f, depth) for f in rv["fields"]), ())
+            return ("agg", rv["agg"], rv.get("closure"), tuple(self.op(f, depth) for f in rv["fields"]), ())
         if k == "repeat":
             return ("repeat", self.op(rv["op"], depth), rv["n"])
         return ("?", rv.get("s"))
@@ -267,7 +267,7 @@ class StraightLine:
         if k == "agg":
             if rv["agg"] == "adt":
                 return ("agg", rv["adt"], rv["vname"], tuple(self.op(f) for f in rv["fields"]), tuple(rv["fnames"]))
-            return ("agg", rv["agg"], None, tuple(self.op(f) for f in rv["fields"]), ())
+            return ("agg", rv["agg"], rv.get("closure"), tuple(self.op(f) for f in rv["fields"]), ())
         return ("?", rv.get("s"))
 
     def write(self, p, t):
